@@ -60,15 +60,15 @@ func buildExprs(exprs []Expression, builder Builder, joinCond string) {
 			switch v := expr.(type) {
 			case OrConditions:
 				if len(v.Exprs) == 1 {
-					if e, ok := v.Exprs[0].(Expr); ok {
-						sql := strings.ToUpper(e.SQL)
+					if rawSQL, ok := rawExprSQL(v.Exprs[0]); ok {
+						sql := strings.ToUpper(rawSQL)
 						wrapInParentheses = strings.Contains(sql, AndWithSpace) || strings.Contains(sql, OrWithSpace)
 					}
 				}
 			case AndConditions:
 				if len(v.Exprs) == 1 {
-					if e, ok := v.Exprs[0].(Expr); ok {
-						sql := strings.ToUpper(e.SQL)
+					if rawSQL, ok := rawExprSQL(v.Exprs[0]); ok {
+						sql := strings.ToUpper(rawSQL)
 						wrapInParentheses = strings.Contains(sql, AndWithSpace) || strings.Contains(sql, OrWithSpace)
 					}
 				}
